@@ -851,7 +851,7 @@ class Process(StateMachine, persistence.Savable, metaclass=ProcessStateMachineMe
     def on_playing(self) -> None:
         """The process was played."""
         # Done being paused
-        if self._paused is not None:
+        if self._paused is not None and not self._paused.done():
             self._paused.set_result(True)
         self._paused = None
 
@@ -922,6 +922,9 @@ class Process(StateMachine, persistence.Savable, metaclass=ProcessStateMachineMe
     def on_terminated(self) -> None:
         """Call when a terminal state is reached."""
         super().on_terminated()
+        if self._paused is not None and not self._paused.done():
+            # Release a stepping coroutine that is blocked waiting for the process to be played
+            self._paused.set_result(True)
         self.close()
 
     @super_check
@@ -1326,6 +1329,9 @@ class Process(StateMachine, persistence.Savable, metaclass=ProcessStateMachineMe
 
         if self.paused and self._paused is not None:
             await self._paused
+            if self.has_terminated():
+                # Killed (or failed) while paused
+                return
 
         try:
             self._stepping = True
